@@ -9,7 +9,7 @@ from ..bits import AV, Sym
 from ..domains import check_domain, looks_undecided, semantic_domain
 from ..fold import FuncRef, UNKNOWN
 from ..intset import IntSet, Undecidable
-from ..model import AnalysisError, unparse
+from ..model import AnalysisError, Unsupported, unparse
 from ..wire import AFile, Field, StrSym, VLQ
 
 LEVEL = 'other'
@@ -127,7 +127,7 @@ def r09_3(ctx):
             if dom is not None and (name, attr) != ('time_signature', 'denominator'):
                 try:
                     r = check_domain(ctx.p, ctx.f, fn, 'value', {'name': attr})
-                except Undecidable:
+                except (Undecidable, Unsupported):
                     r = None
                 if looks_undecided(r):
                     # the tests are not in the method body itself (a field helper object, a table...): decide on executions
@@ -147,7 +147,12 @@ def r09_3(ctx):
     ctx.floor('R09.3', n, 24)
     # the helpers
     ci = ctx.fn(ctx.p.func(META, 'check_int'))
-    r = check_domain(ctx.p, ctx.f, ci, 'value', {'low': 10, 'high': 20})
+    try:
+        r = check_domain(ctx.p, ctx.f, ci, 'value', {'low': 10, 'high': 20})
+    except (Undecidable, Unsupported):
+        r = None
+    if looks_undecided(r):
+        r = semantic_domain(ctx, lambda ai_, v: ai_.call_function(ci, [v, 10, 20], {}), extra=(10, 20))
     ctx.require(r.accepted == IntSet.range(10, 20) and set(r.rejected) == {'ValueError'} and r.type_test and 'Integral' in r.type_test
                 and r.type_test_first, 'R09.5', 'check_int', ctx.where(ci),
                 f'check_int(value, 10, 20) accepts {r.accepted}, rejects with {sorted(r.rejected)}, type test {r.type_test}',
